@@ -775,6 +775,13 @@ def _import_independent(ctx, D, path, tag):
         else:       # relion2emmotl has no optics argument: the pixel size of an optics block is handed over directly
             ok, m = ctx.call(L, cm.relion2emmotl, frame, relion_version=v if need_v else None,
                              pixel_size=tps if D["src"] == "optics" else psarg)
+    # the table converter called directly on a fresh, empty holder with version and pixel size stated (import_df and
+    # import_halfset_single judge it whatever route the loaders above take to the converter inside cryoCAT)
+    plain = pd.DataFrame({lab: ([float(t) for t in toks] if lab in NUMERIC and not (lab == "rlnPixelSize" and D["pstype"] in ("int", "np.int64"))
+                                else _column_like_a_reader(toks)) for lab, toks in D["cols"]})
+    okd, m0 = ctx.call("RelionMotl(None,version,pixel_size)", cm.RelionMotl, None, version=v, pixel_size=tps if D["src"] != "none" else None)
+    if okd:
+        ctx.call("convert_to_motl(frame,version)", m0.convert_to_motl, plain, version=v)
     df = m.df if ok else None
     if df is not None:
         truth_ps = ps if D["src"] != "none" else None       # 3.0 without any pixel size: shifts are in px, nothing to divide
@@ -839,6 +846,12 @@ def run_case(ctx, case):
             src = rdf.reset_index(drop=True)
             ctx.call("convert_angles_from_relion", mf.convert_angles_from_relion, src.copy())
             ctx.call("convert_shifts", mf.convert_shifts, src.copy())
+            okg, mg = ctx.call("RelionMotl(None,version,pixel_size)", cm.RelionMotl, None, version=v, pixel_size=ps, binning=1.0)
+            if okg:
+                ctx.call("convert_to_motl(relion_df)", mg.convert_to_motl, src.copy())
+            okh, mh = ctx.call("RelionMotl(df,version,pixel_size,binning)", cm.RelionMotl, T.copy(), version=v, pixel_size=ps, binning=1.0)
+            if okh:
+                ctx.call("create_relion_df(direct)", mh.create_relion_df, tomo_format=tf, subtomo_format=sf)
     # D. converters
     _run_converter(ctx, case, snap, names_ok)
     # E. independent RELION data
